@@ -64,7 +64,13 @@ pub struct Case {
     /// 3 in a file that sorts earlier, with a channel parameter
     #[serde(default)]
     pub namesake: u8,
+    /// the command's own name: 0 `do_thing`, 1 `r#move`, 2 `r#match` (raw identifiers: Tauri's
+    /// command name is `move` / `match`)
+    #[serde(default)]
+    pub raw_cmd: u8,
 }
+
+pub const CMD_NAMES: [(&str, &str); 3] = [("do_thing", "do_thing"), ("r#move", "move"), ("r#match", "match")];
 
 impl Case {
     fn rust_type(&self, p: &(PKind, usize, usize)) -> String {
@@ -77,7 +83,7 @@ impl Case {
     }
     pub fn project(&self) -> Project {
         let mut s = String::from("use tauri::{AppHandle, State, Window, WebviewWindow, Runtime};\nuse tauri::ipc::Channel;\npub struct AppState;\n\n");
-        s.push_str(&format!("#[tauri::command{}]\npub async fn do_thing<R: Runtime>(", MACRO_ARGS[self.macro_arg].0));
+        s.push_str(&format!("#[tauri::command{}]\npub async fn {}<R: Runtime>(", MACRO_ARGS[self.macro_arg].0, CMD_NAMES[self.raw_cmd as usize % 3].0));
         for p in &self.params {
             s.push_str(&format!("{}: {}, ", NAMES[p.1], self.rust_type(p)));
         }
@@ -305,7 +311,7 @@ pub fn eval(case: &Case) -> (Vec<Violation>, bool, Option<String>) {
     if !run.ok() {
         return (vec![], false, None);
     }
-    let obs = match observe(&run.files, "do_thing") {
+    let obs = match observe(&run.files, CMD_NAMES[case.raw_cmd as usize % 3].1) {
         Ok(o) => o,
         Err(e) if e.starts_with("SYNTAX") => return (vec![], true, Some(e)),
         // a wrapper that is missing is C03's business, a type that is not declared C02's; anything else
@@ -437,7 +443,7 @@ pub fn run(tier: Tier) -> CheckResult {
             for c in &cases_opt {
                 for zod in [false, true] {
                     for variant in 0..(if matches!(k, PKind::Injected(_)) { 1 } else { 3 }) {
-                        cases.push(Case { params: vec![(*k, n, variant)], case: c.clone(), zod, macro_arg: 0, namesake: 0 });
+                        cases.push(Case { params: vec![(*k, n, variant)], case: c.clone(), zod, macro_arg: 0, namesake: 0, raw_cmd: 0 });
                     }
                 }
             }
@@ -454,7 +460,21 @@ pub fn run(tier: Tier) -> CheckResult {
                 }
                 for c in [None, Some("snake_case".to_string()), Some("PascalCase".to_string())] {
                     for zod in [false, true] {
-                        cases.push(Case { params: vec![(k, n, 0)], case: c.clone(), zod, macro_arg, namesake: 0 });
+                        cases.push(Case { params: vec![(k, n, 0)], case: c.clone(), zod, macro_arg, namesake: 0, raw_cmd: 0 });
+                    }
+                }
+            }
+        }
+    }
+    // (1c) the command itself named with a raw identifier: every frontend kind x name x modes
+    for raw_cmd in 1..3u8 {
+        for k in [PKind::Value, PKind::Optional, PKind::Channel] {
+            for n in 0..NAMES.len() {
+                for zod in [false, true] {
+                    let c = Case { params: vec![(k, n, 0), (PKind::Injected(0), 0, 0), (PKind::Channel, (n + 2) % NAMES.len(), 1)], case: None, zod, macro_arg: 0, namesake: 0, raw_cmd };
+                    // (two Rust names that give one key - `type_` and `r#type` - are not a usable command)
+                    if c.key_of(NAMES[n]) != c.key_of(NAMES[(n + 2) % NAMES.len()]) {
+                        cases.push(c);
                     }
                 }
             }
@@ -498,10 +518,10 @@ pub fn run(tier: Tier) -> CheckResult {
             if MACRO_ARGS[macro_arg].1 == Some("snake") && params.iter().any(|p| NAMES[p.1].trim_start_matches("r#").to_snake_case() != NAMES[p.1].trim_start_matches("r#")) {
                 macro_arg = 0;
             }
-            cases.push(Case { params: params.clone(), case: c.clone(), zod: false, macro_arg, namesake: 0 });
+            cases.push(Case { params: params.clone(), case: c.clone(), zod: false, macro_arg, namesake: 0, raw_cmd: 0 });
             // every list once more next to a same-named non-command function in another file
-            cases.push(Case { params: params.clone(), case: c.clone(), zod: i % 2 == 0, macro_arg: 0, namesake: 1 + (i % 3) as u8 });
-            cases.push(Case { params, case: c, zod: true, macro_arg, namesake: 0 });
+            cases.push(Case { params: params.clone(), case: c.clone(), zod: i % 2 == 0, macro_arg: 0, namesake: 1 + (i % 3) as u8, raw_cmd: 0 });
+            cases.push(Case { params, case: c, zod: true, macro_arg, namesake: 0, raw_cmd: 0 });
         }
     }
     // (3) the configured case changes between two runs into the same output directory (real binary
@@ -514,7 +534,7 @@ pub fn run(tier: Tier) -> CheckResult {
             }
             for zod in [false, true] {
                 for build in [false, true] {
-                    hist.push((Case { params: vec![(PKind::Value, 1, 0), (PKind::Optional, 2, 0), (PKind::Channel, 8, 0), (PKind::Injected(0), 0, 0)], case: after.clone(), zod, macro_arg: 0, namesake: 0 }, before.clone(), build));
+                    hist.push((Case { params: vec![(PKind::Value, 1, 0), (PKind::Optional, 2, 0), (PKind::Channel, 8, 0), (PKind::Injected(0), 0, 0)], case: after.clone(), zod, macro_arg: 0, namesake: 0, raw_cmd: 0 }, before.clone(), build));
                 }
             }
         }
